@@ -95,6 +95,8 @@ type Decoder struct {
 	ref    []structInfo
 	// granted counts the elements preallocated on the strength of wire counts (see prealloc)
 	granted int
+	// listGranted counts the bytes preallocated for slices on the strength of wire counts (see preallocList)
+	listGranted int
 	// depth counts the containers being decoded, one inside the other (see enter)
 	depth int
 	Error error
@@ -288,6 +290,7 @@ func (dec *Decoder) Reset() *Decoder {
 	}
 	dec.ref = dec.ref[:0]
 	dec.granted = 0
+	dec.listGranted = 0
 	return dec
 }
 
@@ -368,6 +371,7 @@ func (dec *Decoder) ResetReader(reader io.Reader) *Decoder {
 	}
 	dec.reader = reader
 	dec.granted = 0
+	dec.listGranted = 0
 	dec.head = 0
 	dec.tail = 0
 	return dec
@@ -378,6 +382,7 @@ func (dec *Decoder) ResetBytes(input []byte) *Decoder {
 	dec.reader = nil
 	dec.buf = input
 	dec.granted = 0
+	dec.listGranted = 0
 	dec.head = 0
 	dec.tail = len(input)
 	return dec
@@ -449,6 +454,35 @@ func (dec *Decoder) prealloc(count int) int {
 	return count
 }
 
+// preallocList bounds the first allocation of a slice whose length is a count read from the
+// wire. Unlike a capacity hint (prealloc) the result is visible: it is the length of the slice
+// while its elements are read, and a reference from inside the list to the list itself copies
+// the slice as it is then - shorter and, once the slice has grown, on an array of its own.
+// So it must not depend on how much input happens to be buffered (a Reader would give another
+// value than a byte slice): the lists of one top-level value together get listFree bytes
+// on the strength of their counts alone, beyond that a list starts small and grows as its
+// elements arrive.
+func (dec *Decoder) preallocList(count int, size uintptr) int {
+	const (
+		listFree = 256 << 10
+		small    = 8
+	)
+	if count <= small {
+		return count
+	}
+	if size == 0 {
+		size = 1
+	}
+	if room := (listFree - dec.listGranted) / int(size); count > room {
+		if room < small {
+			room = small
+		}
+		count = room
+	}
+	dec.listGranted += count * int(size)
+	return count
+}
+
 // maxDepth bounds the nesting of lists, maps and objects in the input. Every level is a level
 // of recursion in the decoder: without a bound a few megabytes of "a1{a1{a1{..." exhaust
 // the goroutine stack, which no recover can catch. A hundred thousand levels (a linked
@@ -462,6 +496,9 @@ func (dec *Decoder) enter() bool {
 			dec.Error = DecodeError("hprose/io: lists, maps and objects nested too deep")
 		}
 		return false
+	}
+	if dec.depth == 0 {
+		dec.listGranted = 0 // a new top-level value
 	}
 	dec.depth++
 	return true
